@@ -27,7 +27,10 @@ import (
 
 var modes = []string{"", "prefer_ocsp", "prefer_crl", "ocsp_only", "crl_only", "disabled"}
 var ocspOutcomes = []string{"no-aia", "good", "revoked", "unavailable"}
-var crlOutcomes = []string{"none-known", "listed", "not-listed", "cdp-unavailable"}
+
+// "listed-configured": the certificate names no CDP and is listed in the CRL configured by crl_files;
+// "listed-configured+cdp-unavailable": same, and the certificate also names a CDP that cannot be loaded
+var crlOutcomes = []string{"none-known", "listed", "not-listed", "cdp-unavailable", "listed-configured", "listed-configured+cdp-unavailable"}
 var shapes = []string{"empty", "leaf-int-root", "two-chains", "leaf-int", "leaf-only"}
 
 func ocspEnabled(m string) bool {
@@ -47,7 +50,7 @@ func expectReject(mode, oc, cc, shape string, aiaStrict, cdpStrict bool) bool {
 		r = r || oc == "revoked" || (oc == "unavailable" && aiaStrict)
 	}
 	if crlEnabled(mode) {
-		r = r || cc == "listed" || (cc == "cdp-unavailable" && cdpStrict)
+		r = r || strings.HasPrefix(cc, "listed") || (strings.HasSuffix(cc, "cdp-unavailable") && cdpStrict)
 	}
 	return r
 }
@@ -73,7 +76,7 @@ type cfgKey struct {
 
 func main() {
 	run := report.New("C03", "exploration")
-	run.Rule("cells = mode{unset,prefer_ocsp,prefer_crl,ocsp_only,crl_only,disabled} x OCSP{no AIA,good,revoked,unavailable} x aia_strict x CRL{none known,listed,not listed,CDP unavailable} x cdp_strict x backend x chain shape{empty, leaf-int-root, two chains, leaf-int, leaf only}; oracle = independently written mode table + side conditions from origin hit logs and a work_dir listing (disabled: no hits, work_dir untouched; ocsp_only: no CRL-origin hits; crl_only: no responder hits); non-trivial = cell whose chain list is non-empty (a mechanism could have decided); distinct = cell descriptor")
+	run.Rule("cells = mode{unset,prefer_ocsp,prefer_crl,ocsp_only,crl_only,disabled} x OCSP{no AIA,good,revoked,unavailable} x aia_strict x CRL{none names it,listed (CDP),not listed,CDP unavailable,listed in the configured crl_files CRL,listed there + CDP unavailable} x cdp_strict x backend x chain shape{empty, leaf-int-root, two chains, leaf-int, leaf only}; oracle = independently written mode table + side conditions from origin hit logs and a work_dir listing (disabled: no hits, work_dir untouched; ocsp_only: no CRL-origin hits; crl_only: no responder hits); non-trivial = cell whose chain list is non-empty (a mechanism could have decided); distinct = cell descriptor")
 	run.Assume("'unavailable' is modelled by an origin answering HTTP 500 + html (fails without loader retries); the refused-connection variant is added in the thorough tier for a sample")
 	scratch, _ := report.Scratch("C03")
 	sut.QuietStderr(filepath.Join(scratch, "stderr.log"))
@@ -110,6 +113,14 @@ func main() {
 	}
 	crlDER := gen.SpecFor(w.Int, entries).Build(w.Int.Key).DER
 	nextListed := 0
+	// a second CRL of the same issuer, configured by crl_files for every validator
+	cfgEntries := gen.Entries(rng, gen.Opts{N: 300, SerialWidth: 8})
+	for _, e := range cfgEntries {
+		listed[e.Serial.String()] = true
+	}
+	cfgCRLFile := filepath.Join(scratch, fmt.Sprintf("configured-%d.crl", si))
+	_ = os.WriteFile(cfgCRLFile, gen.SpecFor(w.Int, cfgEntries).Build(w.Int.Key).DER, 0644)
+	nextCfgListed := 0
 	w.OCSP.SetDefault(origin.Status(404, nil))
 	statusOf := map[string]int{}
 	responder := world.Responder(w.Int, nil, nil, func(s *big.Int) world.OCSPStatus {
@@ -131,6 +142,7 @@ func main() {
 		before := dirListing(workDir)
 		cfg := sut.CRLCfg(workDir, k.Backend, "verify", "fetch_actively", k.CDPStrict, "")
 		cfg.TrustedSignatureCertsFiles = []string{intPEM}
+		cfg.CRLFiles = []string{cfgCRLFile}
 		v, err := sut.Provision(sut.Config{Mode: k.Mode, CRL: cfg, OCSP: &config.OCSPConfig{OCSPAIAStrict: k.AIAStrict, TrustedResponderCertsFiles: []string{intPEM}}})
 		if err != nil {
 			run.Violation("provision-failed", fmt.Sprintf("Provision failed for %+v: %v", k, err), &report.Replay{Case: k})
@@ -143,6 +155,9 @@ func main() {
 					if cc == "listed" {
 						serial = entries[nextListed%len(entries)].Serial
 						nextListed++
+					} else if strings.HasPrefix(cc, "listed-configured") {
+						serial = cfgEntries[nextCfgListed%len(cfgEntries)].Serial
+						nextCfgListed++
 					} else {
 						for {
 							serial = gen.SerialOfWidth(rng, 10, false)
@@ -165,7 +180,7 @@ func main() {
 					switch cc {
 					case "listed", "not-listed":
 						cdp = []string{w.CRL.URL(prefix + "/crl")}
-					case "cdp-unavailable":
+					case "cdp-unavailable", "listed-configured+cdp-unavailable":
 						cdp = []string{w.CRL.URL(prefix + "/bad")}
 					}
 					chain := w.Leaf(serial, cdp, aia)
